@@ -6,7 +6,8 @@
    * C19_not_left_active: from a state with no active context, after the call no context is active and no hook is left;
    * C19_delivery: during the call the function body's events reach exactly the tracers of the decorator's list (plus
      tracers that were already receiving function-body events), also when the body raises afterwards;
-   * C19_select_first: the code object taken is the first code constant carrying the function's name.
+   * C19_select_first: the code object taken is the first code constant carrying the function's name;
+   * C19_find_code_*: the level-by-level search of find_function_code over code-object trees (type-parameter scopes only).
    Results / exceptions / name / docstring / node validity / independence of several decorated functions are decided by
    ./check C19 on real module files (the rewrite of the function body itself is C01's and C02's subject). *)
 From Coq Require Import List NArith Bool Arith.
@@ -34,6 +35,29 @@ Theorem C19_select_first : forall name pre c post,
   (forall x, In (Some x) pre -> x <> name) -> c = name -> select name (pre ++ Some c :: post) = Some (length pre).
 Proof. exact select_first. Qed.
 Print Assumptions C19_select_first.
+
+(* tracer.find_function_code (since f44fd25): over code-object trees.  What is taken carries the function's name and is reachable
+   from the module code through type-parameter scopes only - never a function nested in an ordinary function (the decorated
+   function's own nested function of the same name: seed C19-a); a constant of the module with the name wins, the first such;
+   the code of `def f[T](...)` is found one level down, in `<generic parameters of f>` (before f44fd25: not found, nothing swapped). *)
+Theorem C19_find_code_sound : forall fuel level name c, find_code fuel level name = Some c -> co_name c = name /\ greach level c.
+Proof. exact find_code_sound. Qed.
+Print Assumptions C19_find_code_sound.
+Theorem C19_find_code_top : forall k level name c, level <> [] ->
+  find (fun c => N.eqb (co_name c) name) (next_consts level) = Some c -> find_code (S k) level name = Some c.
+Proof. exact find_code_top. Qed.
+Print Assumptions C19_find_code_top.
+Theorem C19_find_code_generic : forall k m name g c,
+  find (fun c => N.eqb (co_name c) name) (co_consts m) = None -> filter co_generic (co_consts m) = [g] ->
+  find (fun c => N.eqb (co_name c) name) (co_consts g) = Some c -> find_code (S (S k)) [m] name = Some c.
+Proof. exact find_code_generic. Qed.
+Print Assumptions C19_find_code_generic.
+(* module [ f(7) [ f(7) nested ] ; <generic parameters of g> [ g(8) [ g(8) nested ] ] ]: f is the module's constant, not its nested
+   namesake; g is found inside its type-parameter scope; a name that only occurs nested in an ordinary function is not found *)
+Example C19_find_code_nonvacuous :
+  let m := CO 0 1 false [CO 1 7 false [CO 2 7 false []; CO 3 9 false []]; CO 4 2 true [CO 5 8 false [CO 6 8 false []]]] in
+  option_map co_uid (find_code 5 [m] 7) = Some 1%N /\ option_map co_uid (find_code 5 [m] 8) = Some 5%N /\ find_code 5 [m] 9 = None.
+Proof. vm_compute. repeat split; reflexivity. Qed.
 
 (* non-vacuity: three tracers, the function is decorated with [2; 0] and raises: both get the body's events, tracer 1 does
    not, and the state afterwards is the initial one *)
